@@ -79,14 +79,18 @@ def check_c13(pid, tier, replay):
     # clipping samples (cap), coincidence slots and one frame in sp
     fl, sp = (48, 16) if q else (128, 8)
     gen_audio.CLIP_CAP = 40 if q else 150
+    gen_audio.U2_MAX = 200 if q else 2100
     ex = gen_audio.exhaustive_short(rng, emus=(0, 2) if q else (0, 2, 3, 4, 5, 6))
     sw = gen_audio.sweep(rng, fl=fl, sp=sp, K=5 if q else 6)
     if not q:
         sw += gen_audio.sweep(rng, fl=fl, sp=sp, per=13, emus=gen_audio.EMULATORS[3:] + gen_audio.EMULATORS[:3])
     bd = gen_audio.boundary(rng, sizes=gen_audio.BOUNDARY if not q else gen_audio.BOUNDARY[:10] + [32767, 65536, 69999, 70000])
+    us = gen_audio.ustride_grid(rng, fl=fl, sp=sp) if q else \
+        gen_audio.ustride_grid(rng, emus=(0, 2, 3, 4, 5, 6, 1, 8), calls=36, fl=fl, sp=sp,
+                               sizes=(4, 6, 2, 10, 1030, 7, 64, 3, 16, 200, 5, 1026, 12, 2050, 8, 333, 4096, 14, 2, 9000, 20, 1024, 70000, 100))
     pl = gen_audio.play_histories(rng, 24 if q else 100, fl=fl, sp=sp * 2)
     rd = [gen_audio.random_history(rng, 14 if q else 24, fl=fl, sp=sp * 2) for _ in range(60 if q else 250)]
-    groups = [("model_generated", beh), ("exhaustive_short", ex), ("size_sweep", sw), ("boundary", bd), ("play", pl), ("random", rd)]
+    groups = [("model_generated", beh), ("exhaustive_short", ex), ("size_sweep", sw), ("boundary", bd), ("unaligned_stride_grid", us), ("play", pl), ("random", rd)]
     histories = []
     for _, g in groups:
         histories += g
